@@ -1,4 +1,484 @@
 import PyaModel.Spec.D14
 import PyaModel.Spec.Mem
+import PyaModel.Proofs.C14
+/-!
+# Props/C14 — the value algebra: uniting, equality, hashing, substitution
+
+Property theorems only. Model: `Pya.unite` (= `unite_values`), `Pya.Ty.beq` (= `Value.__eq__`),
+`Pya.Ty.hashEq` (= equality of `Value.__hash__`), `Pya.subst` (= `substitute_typevars`), all in
+Core/Union.lean / Core/Assign.lean. Spec: `Pya.mem` (Spec/Mem.lean). Exception classes: Spec/D14.lean.
+Side-condition predicates defined in Proofs/C14.lean:
+
+* `Ty.isU t` — `t` is a union or an `Annotated[A | B, m]` (what `flatten_values` takes apart);
+* `Ty.flat t` — *top level*: the members of a union / annotated union `t` are not `isU`
+  (any non-union is flat);
+* `Ty.flatD t` — *deep*: every union occurring anywhere in `t` has no `isU` member;
+* `Ty.tidy t` — `t` contains no union and no unhashable literal;
+* `Ty.tidyU t` — `t` is tidy, or a union all of whose members are tidy;
+* `Ty.isUnion t` — `t` is a `MultiValuedValue`.
+-/
 namespace Pya
+
+/-! ## 1–3. equality and hashing -/
+
+/-- Hash-equal values are `==`: the dict lookup inside `unite_values` never merges two values that
+are not equal. Full strength. -/
+theorem hashEq_imp_beq (a b : Ty) (h : Ty.hashEq a b = true) : Ty.beq a b = true :=
+  Ty.hashEq_imp_beq' a b h
+
+/-- `Value.__eq__` is reflexive. -/
+theorem beq_refl (a : Ty) : Ty.beq a a = true := Ty.beq_refl a
+
+/-- `Value.__eq__` is symmetric. -/
+theorem beq_symm (a b : Ty) : Ty.beq a b = Ty.beq b a := Ty.beq_comm a b
+
+/-- **Full statement** (false of the pinned pyanalyze: `beq_trans_witness`): `Value.__eq__` is
+transitive. -/
+def BeqTrans : Prop := ∀ a b c : Ty, Ty.beq a b = true → Ty.beq b c = true → Ty.beq a c = true
+
+/-- `Value.__eq__` is transitive on values that contain no union (hence, with `beq_refl` and
+`beq_symm`, an equivalence relation there). -/
+theorem beq_trans_partial (a b c : Ty) (h : a.hasUnion = false) (h1 : Ty.beq a b = true)
+    (h2 : Ty.beq b c = true) : Ty.beq a c = true := Ty.beq_trans a h b c h1 h2
+
+/-- … and on unions of tidy members (together with tidy non-unions). -/
+theorem beq_trans_tidyU_partial (a b c : Ty) (ha : a.tidyU = true) (hb : b.tidyU = true)
+    (hc : c.tidyU = true) (h1 : Ty.beq a b = true) (h2 : Ty.beq b c = true) :
+    Ty.beq a c = true := beq_trans_tidyU ha hb hc h1 h2
+
+/-- class `unionOrder`: with `A = list[int | str]`, `A' = list[str | int]` (`==`, different hashes):
+`A | float == A' | float` (same order, member-wise `==`), `A' | float == float | A'` (same set),
+but `A | float != float | A'` (neither the same tuple nor, through hashes, the same set). -/
+theorem beq_trans_witness :
+    Ty.beq (.union [.generic C.list [.union [.typed C.int, .typed C.str]], .typed C.float])
+      (.union [.generic C.list [.union [.typed C.str, .typed C.int]], .typed C.float]) = true ∧
+    Ty.beq (.union [.generic C.list [.union [.typed C.str, .typed C.int]], .typed C.float])
+      (.union [.typed C.float, .generic C.list [.union [.typed C.str, .typed C.int]]]) = true ∧
+    Ty.beq (.union [.generic C.list [.union [.typed C.int, .typed C.str]], .typed C.float])
+      (.union [.typed C.float, .generic C.list [.union [.typed C.str, .typed C.int]]]) = false := by
+  simp [Ty.beq, Ty.beqList, Ty.subsetH, Ty.memH, Ty.hashEq, Ty.hashEqList, C.int, C.str, C.float, C.list]
+
+theorem beqTrans_false : ¬ BeqTrans := fun h => by
+  have := h _ _ _ beq_trans_witness.1 beq_trans_witness.2.1
+  rw [beq_trans_witness.2.2] at this
+  cases this
+/-- Equality of two unions (`MultiValuedValue.__eq__`): the member tuples are member-wise `==`, or
+each member list is included in the other under hash lookup (`set(vals)` comparison). -/
+theorem beq_union_iff (as bs : List Ty) :
+    Ty.beq (.union as) (.union bs) = true ↔
+      Ty.beqList as bs = true ∨
+        ((∀ a ∈ as, ∃ b ∈ bs, Ty.hashEq b a = true) ∧ (∀ b ∈ bs, ∃ a ∈ as, Ty.hashEq a b = true)) :=
+  Ty.beq_union_iff
+
+/-- `==` unions include each other up to `==` (only this direction). -/
+theorem beq_union_incl (as bs : List Ty) (h : Ty.beq (.union as) (.union bs) = true) :
+    (∀ a ∈ as, ∃ b ∈ bs, Ty.beq a b = true) ∧ (∀ b ∈ bs, ∃ a ∈ as, Ty.beq b a = true) :=
+  Ty.beq_union_incl h
+/-- Hash equality is symmetric and transitive (a partial equivalence: it is reflexive exactly on
+the values whose hash is stable, see `hashEq_refl_partial`). -/
+theorem hashEq_symm_trans (a b c : Ty) :
+    Ty.hashEq a b = Ty.hashEq b a ∧
+      (Ty.hashEq a b = true → Ty.hashEq b c = true → Ty.hashEq a c = true) :=
+  ⟨Ty.hashEq_comm a b, Ty.hashEq_trans a b c⟩
+
+/-- A value hashes equal to itself exactly when it contains no unhashable literal. -/
+theorem hashEq_refl_iff (a : Ty) : Ty.hashEq a a = true ↔ a.hasUnhashable = false :=
+  Ty.hashEq_refl_iff a
+
+/-- A value that contains no unhashable literal hashes equal to itself. -/
+theorem hashEq_refl_partial (a : Ty) (h : a.hasUnhashable = false) : Ty.hashEq a a = true :=
+  Ty.hashEq_refl a h
+/-- **Full statement** (false of the pinned pyanalyze, see the witnesses): values that compare equal
+hash equal. -/
+def EqImpHash : Prop := ∀ a b : Ty, Ty.beq a b = true → Ty.hashEq a b = true
+
+/-- **Equal values hash equal, outside the classes `unionOrder` and `unhashable`**: if `a` contains
+no union, and neither `a` nor `b` contains an unhashable literal, then `a == b` implies equal
+hashes. (The condition on `b` cannot be dropped: `unhashableRight_witness`. `b` contains no union
+either, because it is `==` to `a`.) -/
+theorem eq_hash_partial (a b : Ty) (h1 : a.hasUnion = false) (h2 : a.hasUnhashable = false)
+    (h3 : b.hasUnhashable = false) (h : Ty.beq a b = true) : Ty.hashEq a b = true :=
+  Ty.beq_imp_hashEq a b h1 h2 h3 h
+
+/-- class `unhashable`: `KnownValue([1]) == KnownValue([1])` but the hashes (identity based) differ. -/
+theorem unhashable_witness :
+    Ty.beq (.known (.list [.int 1])) (.known (.list [.int 1])) = true ∧
+    Ty.hashEq (.known (.list [.int 1])) (.known (.list [.int 1])) = false := by
+  constructor
+  · exact Ty.beq_refl _
+  · decide
+
+/-- class `unionOrder`: `int | str == str | int` but the hashes (order sensitive) differ. -/
+theorem unionOrder_witness :
+    Ty.beq (.union [.typed C.int, .typed C.str]) (.union [.typed C.str, .typed C.int]) = true ∧
+    Ty.hashEq (.union [.typed C.int, .typed C.str]) (.union [.typed C.str, .typed C.int]) = false := by
+  constructor
+  · simp [Ty.beq, Ty.beqList, Ty.subsetH, Ty.memH, Ty.hashEq, C.int, C.str]
+  · decide
+
+/-- class `unhashable`, right operand: `(frozenset({1}),) == ({1},)` (same type, equal), the left
+literal is hashable, the right one is not. -/
+theorem unhashableRight_witness :
+    Ty.beq (.known (.tuple [.fset [.int 1]])) (.known (.tuple [.set [.int 1]])) = true ∧
+    (Ty.known (.tuple [.fset [.int 1]])).hasUnhashable = false ∧
+    (Ty.known (.tuple [.fset [.int 1]])).hasUnion = false ∧
+    Ty.hashEq (.known (.tuple [.fset [.int 1]])) (.known (.tuple [.set [.int 1]])) = false := by
+  refine ⟨?_, by decide, by decide, by decide⟩
+  simp only [Ty.beq]; decide
+
+/-- Hence the full statement fails. -/
+theorem eqImpHash_false : ¬ EqImpHash := fun h => by
+  have := h _ _ unhashable_witness.1
+  rw [unhashable_witness.2] at this
+  cases this
+
+/-! ## 4–5. shape of the result -/
+
+/-- **Uniting never nests unions**: if every operand is flat (top level: its union members are
+neither unions nor annotated unions) then so is the result. -/
+theorem unite_flat (vs : List Ty) (h : ∀ v ∈ vs, v.flat = true) : (unite vs).flat = true :=
+  unite_flat' h
+
+/-- The same for deep flatness (`Ty.flatD`: no union anywhere inside has a union / annotated-union
+member): uniting deeply flat values gives a deeply flat value. -/
+theorem unite_flatD (vs : List Ty) (h : ∀ v ∈ vs, v.flatD = true) : (unite vs).flatD = true :=
+  unite_flatD' h
+
+/-- `Never` is an identity of uniting (on either side: see also `unite_never_right_partial`). -/
+theorem unite_never_id (vs : List Ty) : unite (Ty.never :: vs) = unite vs := unite_never_cons vs
+
+/-- … and uniting a single value that is not a union / annotated union returns that value. -/
+theorem unite_single (a : Ty) (h : a.isU = false) : unite [a] = a := unite_single' h
+
+/-- More generally `unite [a] = a` (hence `unite [Never, a] = a`) for every `a` that is not an
+annotated union, not a one-member union and has no two `==` members. -/
+theorem unite_single_partial (a : Ty) (h1 : isAnnUnion a = false) (h2 : nonNormalUnion a = false) :
+    unite [a] = a := unite_single_normal h1 h2
+
+/-- `Never` as right identity, same side conditions. -/
+theorem unite_never_right_partial (a : Ty) (h1 : isAnnUnion a = false)
+    (h2 : nonNormalUnion a = false) : unite [a, Ty.never] = a := by
+  have : unite [a, Ty.never] = unite [a] := by simp [unite, Ty.never, flatten1]
+  rw [this]; exact unite_single_normal h1 h2
+
+/-! ## 6. members -/
+
+/-- `==` values have exactly the same members (for every class table and object). -/
+theorem beq_mem (tbl : ClassTable) (a b : Ty) (h : Ty.beq a b = true) (o : Obj) :
+    mem tbl o a = mem tbl o b := Ty.beq_mem' tbl h o
+
+/-- **The members of a union of values are exactly the members of the operands** — full strength:
+every class table, every object, every operand list (no side condition at all). -/
+theorem unite_mem (tbl : ClassTable) (o : Obj) (vs : List Ty) :
+    mem tbl o (unite vs) = vs.any (fun v => mem tbl o v) := unite_mem' tbl o vs
+
+/-! ## 7. semilattice laws -/
+
+/-- **Full statement of commutativity** (false: `unite_comm_unhashable_witness`). -/
+def UniteComm : Prop := ∀ a b : Ty, Ty.beq (unite [a, b]) (unite [b, a]) = true
+
+/-- **Commutativity outside the class `unhashable`**: uniting the same operands, none of which
+contains an unhashable literal, in any order gives `==` results. (Nested unions, annotated unions,
+duplicate members do not matter.) -/
+theorem unite_perm_partial (vs ws : List Ty) (h : vs.Perm ws)
+    (hu : ∀ v ∈ vs, v.hasUnhashable = false) : Ty.beq (unite vs) (unite ws) = true :=
+  unite_perm' h fun v hv => (hasUnhashable_flatten1 v).mp (hu v hv)
+/-- Commutativity for two operands without unhashable literal. -/
+theorem unite_comm_partial (a b : Ty) (ha : a.hasUnhashable = false) (hb : b.hasUnhashable = false) :
+    Ty.beq (unite [a, b]) (unite [b, a]) = true :=
+  unite_perm_partial _ _ (List.Perm.swap b a []) (by simp [ha, hb])
+
+/-- class `unhashable`: `[1] | [2]` against `[2] | [1]`: neither the same tuple nor (the literals
+have identity hashes) the same set. -/
+theorem unite_comm_unhashable_witness :
+    Ty.beq (unite [.known (.list [.int 1]), .known (.list [.int 2])])
+      (unite [.known (.list [.int 2]), .known (.list [.int 1])]) = false := by
+  simp [unite, flatten1, dedup, dictMem, Ty.hashEq, Obj.hashable, Ty.beq, Ty.beqList, Ty.subsetH,
+    Ty.memH, Obj.same, Obj.tag, Obj.pyEq, Obj.pyEqList]
+
+theorem uniteComm_false : ¬ UniteComm := fun h => by
+  have := h (.known (.list [.int 1])) (.known (.list [.int 2]))
+  rw [unite_comm_unhashable_witness] at this
+  cases this
+/-- **Full statement of associativity** (false for non-flat operands: `unite_assoc_nested_witness`). -/
+def UniteAssoc : Prop := ∀ a b c : Ty, Ty.beq (unite [unite [a, b], c]) (unite [a, unite [b, c]]) = true
+
+/-- **Associativity for flat operands — as an identity, not only up to `==`.** -/
+theorem unite_assoc_partial (a b c : Ty) (ha : a.flat = true) (hb : b.flat = true)
+    (hc : c.flat = true) : unite [unite [a, b], c] = unite [a, unite [b, c]] :=
+  unite_assoc' ha hb hc
+
+/-- the same up to `==` -/
+theorem unite_assoc_beq_partial (a b c : Ty) (ha : a.flat = true) (hb : b.flat = true)
+    (hc : c.flat = true) : Ty.beq (unite [unite [a, b], c]) (unite [a, unite [b, c]]) = true := by
+  rw [unite_assoc' ha hb hc]; exact Ty.beq_refl _
+
+/-- n-ary form: an inner `unite` of flat operands can be spliced into the outer operand list. -/
+theorem unite_unite_partial (us vs ws : List Ty) (h : ∀ v ∈ vs, v.flat = true) :
+    unite (us ++ unite vs :: ws) = unite (us ++ vs ++ ws) := by
+  have hf := flatten1_unite h
+  rw [unite_eq, unite_eq (us ++ vs ++ ws)]
+  simp only [List.flatMap_append, List.flatMap_cons, hf, dedup_append, dedup_dedup]
+
+/-- a union nested as the only member of a union: associativity fails even up to `==` -/
+theorem unite_assoc_nested_witness :
+    Ty.beq (unite [unite [.union [.union [.typed C.int, .typed C.str]], Ty.never], .typed C.int])
+      (unite [.union [.union [.typed C.int, .typed C.str]], unite [Ty.never, .typed C.int]]) = false := by
+  simp [unite, flatten1, dedup, dictMem, Ty.never, Ty.hashEq, Ty.beq, Ty.beqList,
+    Ty.subsetH, Ty.memH, C.int, C.str]
+
+theorem uniteAssoc_false : ¬ UniteAssoc := fun h => by
+  have := h (.union [.union [.typed C.int, .typed C.str]]) Ty.never (.typed C.int)
+  rw [unite_assoc_nested_witness] at this
+  cases this
+
+/-- **Full statement of idempotence** (false, see the four witnesses). -/
+def UniteIdem : Prop := ∀ a : Ty, Ty.beq (unite [a, a]) a = true
+
+/-- **Idempotence outside the classes `annotatedUnion`, `dupUnion`, one-member union and
+`unhashable` — as an identity**: if `a` is not an annotated union, is not a one-member union, has
+no two `==` members and contains no unhashable literal, then `unite [a, a]` is `a` itself. -/
+theorem unite_idem_partial (a : Ty) (h1 : isAnnUnion a = false) (h2 : nonNormalUnion a = false)
+    (h3 : a.hasUnhashable = false) : unite [a, a] = a :=
+  unite_idem' h1 h2 h3
+
+/-- the same up to `==` -/
+theorem unite_idem_beq_partial (a : Ty) (h1 : isAnnUnion a = false) (h2 : nonNormalUnion a = false)
+    (h3 : a.hasUnhashable = false) : Ty.beq (unite [a, a]) a = true := by
+  rw [unite_idem' h1 h2 h3]; exact Ty.beq_refl a
+/-- class `unhashable`: `[1] | [1]` keeps both literals. -/
+theorem unite_idem_unhashable_witness :
+    unite [.known (.list [.int 1]), .known (.list [.int 1])] =
+      .union [.known (.list [.int 1]), .known (.list [.int 1])] ∧
+    Ty.beq (unite [.known (.list [.int 1]), .known (.list [.int 1])]) (.known (.list [.int 1])) = false := by
+  have : unite [.known (.list [.int 1]), .known (.list [.int 1])] =
+      .union [.known (.list [.int 1]), .known (.list [.int 1])] := by
+    simp [unite, flatten1, dedup, dictMem, Ty.hashEq, Obj.hashable]
+  exact ⟨this, by rw [this]; simp [Ty.beq]⟩
+
+
+/-- class `unhashable`, as a union member: `(int | [1]) | (int | [1])` keeps the literal twice and is
+not `==` to the operand. -/
+theorem unite_idem_unhashableMember_witness :
+    Ty.beq (unite [.union [.typed C.int, .known (.list [.int 1])], .union [.typed C.int, .known (.list [.int 1])]])
+      (.union [.typed C.int, .known (.list [.int 1])]) = false := by
+  simp [unite, flatten1, dedup, dictMem, Ty.hashEq, Obj.hashable, Ty.beq, Ty.beqList, Ty.subsetH,
+    Ty.memH]
+/-- class `annotatedUnion`: the metadata is handed down to the members. -/
+theorem annotatedUnion_witness :
+    Ty.beq (unite [.annotated (.union [.typed C.int, .typed C.str]),
+        .annotated (.union [.typed C.int, .typed C.str])])
+      (.annotated (.union [.typed C.int, .typed C.str])) = false := by
+  simp [unite, flatten1, annotate, dedup, dictMem, Ty.hashEq, Ty.beq, C.int, C.str]
+
+/-- class `dupUnion`: `MultiValuedValue([int, int])` is de-duplicated. -/
+theorem dupUnion_witness :
+    Ty.beq (unite [.union [.typed C.int, .typed C.int], .union [.typed C.int, .typed C.int]])
+      (.union [.typed C.int, .typed C.int]) = false := by
+  simp [unite, flatten1, dedup, dictMem, Ty.hashEq, Ty.beq]
+
+/-- one-member union: `MultiValuedValue([int])` collapses to `int`. -/
+theorem singletonUnion_witness :
+    Ty.beq (unite [.union [.typed C.int], .union [.typed C.int]]) (.union [.typed C.int]) = false := by
+  simp [unite, flatten1, dedup, dictMem, Ty.hashEq, Ty.beq]
+
+theorem uniteIdem_false : ¬ UniteIdem := fun h => by
+  have := h (.union [.typed C.int])
+  rw [singletonUnion_witness] at this
+  cases this
+
+/-- **Full statement of "equal alternatives are merged"** (false: `unionOrder_unite_witness`). -/
+def UniteMerges : Prop := ∀ vs : List Ty, hasDupMembers (unite vs) = false
+
+/-- **Equal alternatives are merged, outside `unionOrder` / `unhashable`**: if every flattened
+member of every operand is tidy, the result has no two `==` members and is not a one-member union. -/
+theorem unite_merges_partial (vs : List Ty) (h : ∀ v ∈ vs, ∀ x ∈ flatten1 v, x.tidy = true) :
+    nonNormalUnion (unite vs) = false := unite_normal' h
+
+/-- class `unionOrder`: `list[int | str]` and `list[str | int]` are `==` but both are kept. -/
+theorem unionOrder_unite_witness :
+    hasDupMembers (unite [.generic C.list [.union [.typed C.int, .typed C.str]],
+      .generic C.list [.union [.typed C.str, .typed C.int]]]) = true := by
+  simp [unite, flatten1, dedup, dictMem, Ty.hashEq, Ty.hashEqList, Ty.beq, Ty.beqList, Ty.subsetH,
+    Ty.memH, Ty.memBy, hasDupMembers, hasDupMembers.dupIn, C.int, C.str, C.list]
+
+theorem uniteMerges_false : ¬ UniteMerges := fun h => by
+  have := h [.generic C.list [.union [.typed C.int, .typed C.str]],
+      .generic C.list [.union [.typed C.str, .typed C.int]]]
+  rw [unionOrder_unite_witness] at this
+  cases this
+
+/-! ## 8. substitution -/
+
+/-- The empty substitution is the identity on every value. -/
+theorem subst_empty (t : Ty) : subst [] t = t := subst_nil t
+
+/-- **Substitution is the identity on values without type variables** that are deeply flat (the
+union clause re-runs the flattening constructor, so a nested union would be flattened). -/
+theorem subst_id_closed (m : TvMap) (t : Ty) (h1 : t.tvars = []) (h2 : t.flatD = true) :
+    subst m t = t := subst_id_closed' m t h1 h2
+
+/-- without flatness the statement fails -/
+theorem subst_id_nested_witness :
+    subst [(0, .typed C.int)] (.union [.union [.typed C.int, .typed C.str]]) =
+      .union [.typed C.int, .typed C.str] := by
+  simp [subst, substL, mkUnion, flatten1]
+
+/-- **Substitution replaces every occurrence**: if every variable of `t` is mapped to a term
+without variables, no variable is left. -/
+theorem subst_replaces_all (m : TvMap) (t : Ty)
+    (h : ∀ i ∈ t.tvars, ∃ u, m.get i = some u ∧ u.tvars = []) : (subst m t).tvars = [] :=
+  subst_replaces_all' m t h
+
+/-- Substitution respects hash equality, provided the substituted right-hand side contains no
+unhashable literal (the replacement of a variable must hash equal to itself). -/
+theorem subst_hashEq_congr_partial (m : TvMap) (a b : Ty) (h : Ty.hashEq a b = true)
+    (hu : (subst m b).hasUnhashable = false) : Ty.hashEq (subst m a) (subst m b) = true :=
+  hashEq_subst m a b h hu
+
+/-- Substitution does not respect `==` in general: `(int | str) | [1]` and `(str | int) | [1]`
+(nested unions) are member-wise `==`; substitution re-flattens them to `int | str | [1]` and
+`str | int | [1]`, which are neither the same tuple nor the same set. -/
+theorem subst_beq_congr_witness :
+    Ty.beq (.union [.union [.typed C.int, .typed C.str], .known (.list [.int 1])])
+      (.union [.union [.typed C.str, .typed C.int], .known (.list [.int 1])]) = true ∧
+    Ty.beq (subst [(0, .any)] (.union [.union [.typed C.int, .typed C.str], .known (.list [.int 1])]))
+      (subst [(0, .any)] (.union [.union [.typed C.str, .typed C.int], .known (.list [.int 1])])) = false := by
+  simp [subst, substL, mkUnion, flatten1, Ty.beq, Ty.beqList, Ty.subsetH, Ty.memH, Ty.hashEq,
+    Obj.hashable, Obj.same, Obj.tag, Obj.pyEq, Obj.pyEqList, C.int, C.str]
+/-- **Full statement**: substitution commutes with uniting up to `==` (false: `substCollapse_witness`). -/
+def SubstUniteComm : Prop :=
+  ∀ (m : TvMap) (a b : Ty), Ty.beq (subst m (unite [a, b])) (unite [subst m a, subst m b]) = true
+
+/-- **Substitution commutes with uniting outside the class `substCollapse`** (and `annotatedUnion`,
+`unhashable`): for flat operands that are not annotated unions, if substituting into the union of
+the operands gives neither an annotated union, nor a one-member union, nor a union with two `==`
+members, and the substituted operands contain no unhashable literal, then
+`subst m (unite [a, b]) == unite [subst m a, subst m b]`. -/
+theorem subst_unite_comm_partial (m : TvMap) (a b : Ty)
+    (ha : isAnnUnion a = false) (hb : isAnnUnion b = false)
+    (hfa : a.flat = true) (hfb : b.flat = true)
+    (hL1 : isAnnUnion (subst m (unite [a, b])) = false)
+    (hL2 : nonNormalUnion (subst m (unite [a, b])) = false)
+    (hua : (subst m a).hasUnhashable = false)
+    (hub : (subst m b).hasUnhashable = false) :
+    Ty.beq (subst m (unite [a, b])) (unite [subst m a, subst m b]) = true :=
+  subst_unite' m ha hb hfa hfb hL1 hL2 hua hub
+/-- class `substCollapse`: `T | int` with `T := int`: substituting into the union gives
+`MultiValuedValue([int, int])`, uniting the substituted operands gives `int`. -/
+theorem substCollapse_witness :
+    subst [(0, .typed C.int)] (unite [.tvar 0, .typed C.int]) = .union [.typed C.int, .typed C.int] ∧
+    unite [subst [(0, .typed C.int)] (.tvar 0), subst [(0, .typed C.int)] (.typed C.int)] = .typed C.int ∧
+    Ty.beq (.union [.typed C.int, .typed C.int]) (.typed C.int) = false := by
+  refine ⟨?_, ?_, by simp [Ty.beq]⟩
+  · simp [unite, flatten1, dedup, dictMem, Ty.hashEq, subst, substL, mkUnion, TvMap.get]
+  · simp [unite, flatten1, dedup, dictMem, Ty.hashEq, Ty.beq, subst, TvMap.get]
+
+theorem substUniteComm_false : ¬ SubstUniteComm := fun h => by
+  have := h [(0, .typed C.int)] (.tvar 0) (.typed C.int)
+  rw [substCollapse_witness.1, substCollapse_witness.2.1, substCollapse_witness.2.2] at this
+  cases this
+
+/-! ## Non-vacuity: every hypothesis set is met by a non-trivial input -/
+
+/-- `dict[str, Literal[(1,)]]` and `dict[str, Literal[(True,)]]`: different terms, `==`, same hash -/
+def exA : Ty := .generic C.dict [.typed C.str, .known (.tuple [.int 1])]
+def exB : Ty := .generic C.dict [.typed C.str, .known (.tuple [.bool true])]
+example : exA.hasUnion = false := by decide
+example : exA.hasUnhashable = false := by decide
+example : exB.hasUnhashable = false := by decide
+example : Ty.beq exA exB = true := by
+  simp [exA, exB, Ty.beq, Ty.beqList, Obj.same, Obj.tag, Obj.pyEq, Obj.pyEqList]
+example : Ty.hashEq exA exB = true :=
+  eq_hash_partial exA exB (by decide) (by decide) (by decide)
+    (by simp [exA, exB, Ty.beq, Ty.beqList, Obj.same, Obj.tag, Obj.pyEq, Obj.pyEqList])
+
+/-- `int | str`, `Annotated[str | bytes, m]`, `float`, `list[int | str] | None` -/
+def exU : Ty := .union [.typed C.int, .typed C.str]
+def exAnn : Ty := .annotated (.union [.typed C.str, .typed C.bytes])
+def exF : Ty := .typed C.float
+def exG : Ty := .union [.generic C.list [exU], .known .none]
+example : ∀ v ∈ [exU, exAnn, exF, exG], v.flat = true := by decide
+example : (unite [exU, exAnn, exF, exG]).flat = true := unite_flat _ (by decide)
+example : exU.flat = true ∧ exAnn.flat = true ∧ exF.flat = true := by decide
+example : (unite [exU, exAnn, exF, exG]).flatD = true := unite_flatD _ (by decide)
+example : unite [unite [exU, exAnn], exF] = unite [exU, unite [exAnn, exF]] :=
+  unite_assoc_partial _ _ _ (by decide) (by decide) (by decide)
+
+example : exF.isU = false := by decide
+example : isAnnUnion exU = false ∧ isAnnUnion exG = false := by decide
+example : nonNormalUnion exU = false := by
+  simp [exU, nonNormalUnion, hasDupMembers, hasDupMembers.dupIn, Ty.memBy, Ty.beq, C.int, C.str]
+example : unite [exU] = exU :=
+  unite_single_partial _ (by decide)
+    (by simp [exU, nonNormalUnion, hasDupMembers, hasDupMembers.dupIn, Ty.memBy, Ty.beq, C.int, C.str])
+
+/-- idempotence: `int | str` and a hashable non-union -/
+example : isAnnUnion exU = false ∧ exU.hasUnhashable = false := by decide
+example : unite [exU, exU] = exU :=
+  unite_idem_partial _ (by decide)
+    (by simp [exU, nonNormalUnion, hasDupMembers, hasDupMembers.dupIn, Ty.memBy, Ty.beq, C.int, C.str])
+    (by decide)
+example : isAnnUnion exA = false ∧ nonNormalUnion exA = false ∧ exA.hasUnhashable = false := by decide
+
+/-- commutativity: nested unions and an annotated union are fine -/
+example : ∀ v ∈ [exG, exAnn, exA], v.hasUnhashable = false := by decide
+example : Ty.beq (unite [exG, exAnn, exA]) (unite [exA, exG, exAnn]) = true :=
+  unite_perm_partial _ _ (List.perm_append_comm (l₁ := [exG, exAnn]) (l₂ := [exA])) (by decide)
+
+/-- transitivity: `int | Literal[(1,)]`, `Literal[(True,)] | int`, `int | Literal[(1,)]` -/
+example : (Ty.union [.typed C.int, .known (.tuple [.int 1])]).tidyU = true ∧
+    (Ty.union [.known (.tuple [.bool true]), .typed C.int]).tidyU = true := by decide
+example : exA.hasUnion = false := by decide
+example : Ty.beq (.union [.typed C.int, .known (.tuple [.int 1])])
+    (.union [.typed C.int, .known (.tuple [.bool true])]) = true :=
+  beq_trans_tidyU_partial _ (.union [.known (.tuple [.bool true]), .typed C.int]) _
+    (by decide) (by decide) (by decide)
+    (by simp [Ty.beq, Ty.beqList, Ty.subsetH, Ty.memH, Ty.hashEq, Obj.hashable, Obj.hashableAll,
+          Obj.same, Obj.tag, Obj.pyEq, Obj.pyEqList, C.int])
+    (by simp [Ty.beq, Ty.beqList, Ty.subsetH, Ty.memH, Ty.hashEq, Obj.hashable, Obj.hashableAll,
+          Obj.same, Obj.tag, Obj.pyEq, Obj.pyEqList, C.int])
+
+/-- tidy members: `int | str`, `int`, `Literal[1]`, `Annotated[str | bytes, m]` -/
+example : ∀ v ∈ [exU, .typed C.int, .known (.int 1), exAnn], ∀ x ∈ flatten1 v, x.tidy = true := by
+  decide
+example : nonNormalUnion (unite [exU, .typed C.int, .known (.int 1), exAnn]) = false :=
+  unite_merges_partial _ (by decide)
+
+/-- `dict[str, list[int | str]]`: closed and deeply flat -/
+def exC : Ty := .generic C.dict [.typed C.str, .generic C.list [exU]]
+example : exC.tvars = [] := by decide
+example : exC.flatD = true := by decide
+example : subst [(0, exF)] exC = exC := subst_id_closed _ _ (by decide) (by decide)
+
+/-- `T0 | dict[T1, T0]` with `T0 := int`, `T1 := list[str]` -/
+def exM : TvMap := [(0, .typed C.int), (1, .generic C.list [.typed C.str])]
+def exT : Ty := .union [.tvar 0, .generic C.dict [.tvar 1, .tvar 0]]
+theorem exT_mapped : ∀ i ∈ exT.tvars, ∃ u, exM.get i = some u ∧ u.tvars = [] := by
+  intro i hi
+  simp only [exT, Ty.tvars, Ty.tvarsL, List.append_nil, List.cons_append, List.nil_append,
+    List.mem_cons, List.not_mem_nil, or_false] at hi
+  rcases hi with rfl | rfl | rfl
+  · exact ⟨.typed C.int, rfl, rfl⟩
+  · exact ⟨.generic C.list [.typed C.str], rfl, rfl⟩
+  · exact ⟨.typed C.int, rfl, rfl⟩
+example : (subst exM exT).tvars = [] := subst_replaces_all exM exT exT_mapped
+
+/-- `T0 | None` united with `str`, `T0 := int | bytes`: the substituted union is re-flattened -/
+def exM2 : TvMap := [(0, .union [.typed C.int, .typed C.bytes])]
+def exSa : Ty := .union [.tvar 0, .known .none]
+def exSb : Ty := .typed C.str
+theorem exS_left : subst exM2 (unite [exSa, exSb]) =
+    .union [.typed C.int, .typed C.bytes, .known .none, .typed C.str] := by
+  simp [exM2, exSa, exSb, unite, flatten1, dedup, dictMem, Ty.hashEq, subst, substL, mkUnion,
+    TvMap.get, C.str]
+example : Ty.beq (subst exM2 (unite [exSa, exSb])) (unite [subst exM2 exSa, subst exM2 exSb]) = true :=
+  subst_unite_comm_partial exM2 exSa exSb (by decide) (by decide) (by decide) (by decide)
+    (by rw [exS_left]; decide)
+    (by rw [exS_left]
+        simp [nonNormalUnion, hasDupMembers, hasDupMembers.dupIn, Ty.memBy, Ty.beq, C.int, C.bytes, C.str])
+    (by simp [exM2, exSa, subst, substL, mkUnion, TvMap.get, flatten1, Ty.hasUnhashable,
+          Ty.hasUnhashableL, Obj.hashable])
+    (by simp [exM2, exSb, subst, Ty.hasUnhashable])
+
 end Pya
